@@ -159,10 +159,18 @@ def source_fingerprints(prop):
     return out
 
 
-def build_harness(race=False):
+def build_harness(race=False, work=None):
     """Build the Go harness against /repo's working tree (-tags verif); with race=True under the race detector."""
     exe = os.path.join(BUILD, 'harness-race' if race else 'harness')
     hd = os.path.join(ROOT, 'harness')
+    if REPO != '/repo' and work:
+        # measurement only (seed sweeps run in parallel against scratch copies of the repository, VERIF_REPO): a private
+        # copy of the harness module pointing at that copy; registered checks never set VERIF_REPO
+        hd2 = os.path.join(work, 'harness-src')
+        shutil.copytree(hd, hd2)
+        gm = open(os.path.join(hd2, 'go.mod')).read().replace('=> /repo', '=> ' + REPO)
+        open(os.path.join(hd2, 'go.mod'), 'w').write(gm)
+        hd, exe = hd2, os.path.join(work, 'harness-exe')
     cmd = ['go', 'build', '-tags', 'verif']
     env = GOENV
     if race:
@@ -350,7 +358,7 @@ def main(argv):
     okm, mexe, mlog = build_model(prop)
     if not okm:
         problems.append({'what': 'model extraction/compilation failed', 'log': mlog[-3000:]})
-    okh, hexe, hlog = build_harness(race=bool(cfg.get('race')))
+    okh, hexe, hlog = build_harness(race=bool(cfg.get('race')), work=work)
     if not okh:
         problems.append({'what': 'harness does not build against /repo (hooks or API changed)', 'log': hlog[-3000:]})
 
